@@ -16,51 +16,6 @@ import Proofs.MarkMerge
 import Proofs.Level
 namespace PM
 
-namespace Flat
-
-theorem splitRight_flat_of_depth (R : List Node) (t : Nat) (ht : t ≤ fsize R)
-    (ha : alignedAt R t = true) (hd : depthAt R t = 0) :
-    ∃ rest, splitRight R t = some (.flat rest) := by
-  obtain ⟨rs, hrs⟩ := splitRight_total R t ht ha
-  cases rs with
-  | flat rest => exact ⟨rest, hrs⟩
-  | deep c i r =>
-    obtain ⟨_, _, _, _, _, h2, _, _⟩ := splitRight_deep_facts R t c i r hrs
-    omega
-
-theorem twoWay_flat (S : Schema) : ∀ (L : List Node) (f : Nat) (R : List Node) (t : Nat),
-    f ≤ fsize L → alignedAt L f = true → depthAt L f = 0 →
-    (∃ rest, splitRight R t = some (.flat rest)) → ∃ X, twoWay S L f R t = .ok X
-  | [], f, R, t, hf, _, _, ⟨rest, hs⟩ => by
-    have : f = 0 := by simpa using hf
-    subst this
-    unfold twoWay; rw [hs]; simp
-  | n :: ns, f, R, t, hf, ha, hd, ⟨rest, hs⟩ => by
-    by_cases hf0 : f = 0
-    · subst hf0
-      unfold twoWay; rw [hs]; simp
-    by_cases hle : n.size ≤ f
-    · rw [alignedAt_skip n ns f hle] at ha
-      rw [depthAt_skip n ns f hle] at hd
-      obtain ⟨r, hr⟩ := twoWay_flat S ns (f - n.size) R t (by simp at hf; omega) ha hd ⟨rest, hs⟩
-      unfold twoWay
-      rw [if_neg hf0, if_pos hle, hr]
-      exact ⟨_, rfl⟩
-    cases n with
-    | text s m =>
-      simp only [Node.size_text, Nat.not_le] at hle
-      rw [alignedAt_cons, if_neg hf0, if_neg (by simp; omega)] at ha
-      simp only at ha
-      unfold twoWay
-      rw [if_neg hf0, if_neg (by simp; omega)]
-      simp [ha, hs]
-    | leaf ty a m => simp at hle; omega
-    | elem ty a m kids =>
-      simp only [Node.size_elem, Nat.not_le] at hle
-      rw [depthAt_elem_cons _ _ _ _ _ _ (by omega) hle] at hd
-      omega
-
-end Flat
 
 /-- the range `f … t` stays inside the parent of `f`: it ends at the depth it starts at and never
     goes above it -/
@@ -105,34 +60,6 @@ theorem lvl_flat {ty tyP : TypeId} {K L : List Node} {b nd : Nat} {ctx : List No
       omega
 
 /-! ### the replace inside one level -/
-
-/-- **a flat closed replace inside one child list is a validity check of one well-defined list**:
-    the normal-form list `Y` with tokens `before ++ content ++ after` -/
-theorem atLevel_flat_spec (S : Schema) (c : List Node) (hcn : fnorm c = true) (ty : TypeId)
-    (L : List Node) (f t : Nat) (hft : f ≤ t) (ht : t ≤ fsize L)
-    (hdf : depthAt L f = 0) (hdt : depthAt L t = 0)
-    (haf : alignedAt L f = true) (hat : alignedAt L t = true) (hn : fnorm L = true) :
-    ∃ Y, fnorm Y = true ∧ ftoks Y = (ftoks L).take f ++ ftoks c ++ (ftoks L).drop t ∧
-      atLevel S ⟨c, 0, 0⟩ ty L f t 0 = if S.validContent ty Y then .ok Y else .error .failed := by
-  have hnl := fnormKids_of_fnorm hn
-  by_cases hz : fsize c = 0
-  · have hc : c = [] := fsize_zero_of_fnormKids c (fnormKids_of_fnorm hcn) hz
-    subst hc
-    obtain ⟨X, hX⟩ := Flat.twoWay_flat S L f L t (by omega) haf hdf
-      (Flat.splitRight_flat_of_depth L t ht hat hdt)
-    refine ⟨fromArray X, fromArray_norm _ (twoWay_norm S _ _ _ _ _ hnl hnl hX), ?_, ?_⟩
-    · rw [fromArray_toks, twoWay_toks S _ _ _ _ _ hX]; simp
-    · unfold atLevel
-      simp only [fsize_nil, if_true, hX, Except.map]
-  · obtain ⟨l, hl⟩ := fcut_total L 0 f (by omega) (by omega) (alignedAt_zero _) haf hn
-    obtain ⟨r, hr⟩ := fcut_total L t (fsize L) ht (Nat.le_refl _) hat (alignedAt_fsize _) hn
-    refine ⟨fappend (fappend l c) r,
-      fappend_norm _ _ (fappend_norm _ _ (fcut_norm _ _ _ _ hn hl) hcn) (fcut_norm _ _ _ _ hn hr), ?_, ?_⟩
-    · rw [fappend_toks, fappend_toks, fcut_prefix_toks hl (by omega) hdf, fcut_suffix_toks hr hdt]
-    · unfold atLevel
-      simp only []
-      rw [if_neg hz]
-      simp only [hdf, hdt, decide_true, Bool.and_self, if_true, hl, hr]
 
 /-- a flat closed replace that succeeded has pair-aligned ends -/
 theorem twoWay_flat_aligned (S : Schema) : ∀ (L : List Node) (f : Nat) (R : List Node) (t : Nat) (X : List Node),
@@ -277,21 +204,6 @@ theorem lvl_flat_back {ty tyP : TypeId} {K L : List Node} {b nd : Nat} {ctx : Li
       have := hfl.2 (b - 1) (by omega) (by omega)
       have := hfl.1
       omega
-
-/-- **a flat replace with a closed slice**: it is the level's own replace, put back in place -/
-theorem replaceKids_flat {S : Schema} {ty tyP : TypeId} {K L : List Node} {b nd : Nat}
-    {ctx : List Node → List Node} (h : Lvl ty K b nd tyP L ctx) (c : List Node) (fP tP : Nat)
-    (hft : fP ≤ tP) (ht : tP ≤ fsize L) (hdf : depthAt L fP = 0) (hdt : depthAt L tP = 0) :
-    replaceKids S ty K (b + fP) (b + tP) ⟨c, 0, 0⟩ = (atLevel S ⟨c, 0, 0⟩ tyP L fP tP 0).map ctx := by
-  have hr := h.range
-  obtain ⟨d1, _⟩ := h.depth fP (by omega)
-  obtain ⟨d2, _⟩ := h.depth tP ht
-  unfold replaceKids
-  rw [if_neg (by simp [inRange]; omega)]
-  simp only []
-  rw [if_neg (by omega), if_neg (by rw [d1, d2, hdf, hdt]; simp), if_neg (by simp [Slice.wf]),
-    d1, hdf, Nat.add_zero, Nat.sub_zero]
-  exact h.outer ⟨c, 0, 0⟩ fP tP hft ht
 
 /-! ### two flat replaces, the second starting where the first one's content ends -/
 
